@@ -246,6 +246,20 @@ def colliding_samples():
             yield {"outer": {first: [1], second: {"k": None}}, "rows": [{first: 1, second: 2}]}
 
 
+def coincidence_samples():
+    """keys spelled exactly like the class generated for them, holding an object here, null / a scalar there and missing elsewhere;
+    two objects that want the same class name and differ only in the punctuation of a key"""
+    for k in ("Owner", "Runner", "Item"):
+        yield {"Pets": [{k: {"Id": 1}}, {k: None}, {}]}
+        yield {"rows": [{k: {"Id": 1}}, {k: "text"}, {"other": 1}]}
+        yield {"rows": [{k: {"Id": 1}}, {k: {"Id": 2}}, {}]}
+        yield {k: {"Id": 1}, "list": [{k: {"Id": 2}}, {k: None}]}
+    for a, b in (("content-type", "content_type"), ("tag-id", "tag_id"), ("a b", "a_b")):
+        for shared in ({"x-request-id": "1"}, {"plain": "1"}, {}):
+            yield {"request": {"headers": {a: "v", **shared}}, "response": {"headers": {b: "w", **shared}}}
+            yield {"item": {a: 1, **shared}, "items": [{b: 2, **shared}]}
+
+
 def falsify(ctx):
     rng = ctx.rng("fals")
     seen = 0
@@ -268,6 +282,9 @@ def falsify(ctx):
         run(h, "json", V2)
     for sample in colliding_samples():
         run(sample, rng.choice(["json", "yaml", "dict"]), rng.choice([V2, V2, V1]))
+    for sample in coincidence_samples():
+        for kind in (V2, V1):
+            run(sample, "json", kind)
     for i in range(ctx.n(160, 3000)):
         sample = gen_object(rng)
         form = rng.choice(["json", "json", "yaml", "dict"])
